@@ -1,9 +1,191 @@
+/-
+Driver for C12: reads the cases written by harness c12, runs the request-translation model
+(`Olla.Model.AnthropicRequest.translate active`) on the request AST, compares with the AST of
+what the real `TransformRequest` produced, and evaluates the `Olla.Spec.C12` predicates on the
+IMPLEMENTATION's output.
+-/
 import Olla.Driver.Util
+import Olla.Model.AnthropicRequest
+import Olla.Spec.C12
 
 namespace Olla.Driver.C12
-open Lean Olla.Driver
+open Lean Olla.Driver Olla.Model.AnthropicRequest Olla.Spec.C12
 
-/-- placeholder until the C12 driver is written -/
-def main : IO Unit := pure ()
+def parseRC (j : Json) : RC :=
+  match jstr (jget j "k") with
+  | "str" => .str (jstr (jget j "s"))
+  | "json" => .json (jstr (jget j "s"))
+  | _ => .none
+
+def optStr (j : Json) (k : String) : Option String :=
+  match jfield? j k with
+  | some (.str s) => some s
+  | _ => none
+
+def parseBlock (j : Json) : Block :=
+  match jstr (jget j "t") with
+  | "text" => .text (jstr (jget j "s"))
+  | "tool_use" => .toolUse (jstr (jget j "id")) (jstr (jget j "name")) (optStr j "input")
+  | "tool_result" => .toolResult (jstr (jget j "id")) (parseRC (jget j "rc"))
+  | "image" => .image
+  | _ => .other
+
+def parseContent (j : Json) : Content :=
+  match jstr (jget j "k") with
+  | "str" => .str (jstr (jget j "s"))
+  | "blocks" => .blocks ((jarr (jget j "blocks")).map parseBlock)
+  | "single" => match (jarr (jget j "blocks")).map parseBlock with
+                | b :: _ => .single b
+                | [] => .bad
+  | _ => .bad
+
+def parseSys (j : Json) : Sys :=
+  match jstr (jget j "k") with
+  | "str" => .str (jstr (jget j "s"))
+  | "blocks" => .blocks ((jarr (jget j "blocks")).map (fun b => if jstr (jget b "t") == "text" then SysBlock.text (jstr (jget b "s")) else .other))
+  | "other" => .other
+  | _ => .absent
+
+def parseChoice (j : Json) : Choice :=
+  match jstr (jget j "k") with
+  | "str" => .str (jstr (jget j "s"))
+  | "obj" => .obj (jstr (jget j "s")) (optStr j "name")
+  | "other" => .other
+  | _ => .absent
+
+def parseNum (j : Json) (k : String) : Option Num :=
+  match jfield? j k with
+  | some n => if jisNull n then none else some ⟨jstr (jget n "tok"), jint (jget n "micros")⟩
+  | none => none
+
+def parseReq (j : Json) : AReq :=
+  { model := jstr (jget j "model"), maxTokens := jint (jget j "max_tokens"), stream := jbool (jget j "stream"),
+    temperature := parseNum j "temperature", topP := parseNum j "top_p",
+    topK := match jfield? j "top_k" with | some k => if jisNull k then none else some (jint k) | none => none,
+    stop := jstrList (jget j "stop"),
+    system := parseSys (jget j "system"),
+    messages := (jarr (jget j "messages")).map (fun m => ⟨jstr (jget m "role"), parseContent (jget m "content")⟩),
+    tools := (jarr (jget j "tools")).map (fun t => ⟨jstr (jget t "name"), jstr (jget t "desc"), jstr (jget t "schema")⟩),
+    choice := parseChoice (jget j "choice") }
+
+def parseOMsg (j : Json) : OMsg :=
+  match jstr (jget j "t") with
+  | "tool" => .tool (jstr (jget j "id")) (parseRC (jget j "rc"))
+  | "assistant" => .assistant (optStr j "content")
+      ((jarr (jget j "calls")).map (fun c => ⟨jstr (jget c "id"), jstr (jget c "name"), jstr (jget c "args")⟩))
+  | _ => .plain (jstr (jget j "role")) (jstr (jget j "content"))
+
+/-- The OpenAI request read back by the harness.  Numeric tokens: the harness formats the number
+    it found with the same function it used for the request's literal. -/
+def parseOReq (j : Json) (r : AReq) : OReq :=
+  let numOf (k : String) (src : Option Num) : Option Num :=
+    match optStr j k with
+    | some tok => some ⟨tok, match src with | some n => if n.tok == tok then n.micros else 0 | none => 0⟩
+    | none => none
+  { model := jstr (jget j "model"), maxTokens := jint (jget j "max_tokens"), stream := jbool (jget j "stream"),
+    temperature := numOf "temperature" r.temperature, topP := numOf "top_p" r.topP,
+    stop := jstrList (jget j "stop"),
+    messages := (jarr (jget j "messages")).map parseOMsg,
+    tools := (jarr (jget j "tools")).map (fun t => ⟨jstr (jget t "name"), jstr (jget t "desc"), jstr (jget t "params")⟩),
+    choice := match jfield? j "choice" with
+              | some c => if jisNull c then none else
+                  (if jstr (jget c "k") == "function" then some (.function (jstr (jget c "s"))) else some (.str (jstr (jget c "s"))))
+              | none => none }
+
+def sigUserOrder : String := "user-text-after-tool-result-sent-before-the-result"
+def sigAsstOrder : String := "assistant-text-after-tool-use-sent-before-the-call"
+def sigNoneObj : String := "tool-choice-none-object-becomes-auto"
+def pinnedSigs : List String := [sigUserOrder, sigAsstOrder, sigNoneObj]
+
+def pickFailure (fails : List (String × String)) : Option (String × String) :=
+  match fails.find? (fun f => !pinnedSigs.contains f.1) with
+  | some f => some f
+  | none => fails.head?
+
+def errJson : Err → Json
+  | .validation w => Json.mkObj [("class", "validation"), ("what", toJson w)]
+  | .content => Json.mkObj [("class", "content")]
+  | .toolChoice => Json.mkObj [("class", "toolChoice")]
+
+def hasBlock (r : AReq) (p : Block → Bool) : Bool := r.messages.any (fun m => (contentBlocks m.content).any p)
+
+def reqBranch (r : AReq) (ok : Bool) : String :=
+  let v := if valid r then "valid" else "invalid"
+  let wr := if wellRoled r then "" else ".illroled"
+  let tools := if r.tools.isEmpty then "" else ".tools"
+  let ch := match r.choice with | .absent => "" | .str _ => ".choice-str" | .obj _ _ => ".choice-obj" | .other => ".choice-other"
+  let res := if hasBlock r (fun b => match b with | .toolResult .. => true | _ => false) then ".results" else ""
+  let use := if hasBlock r (fun b => match b with | .toolUse .. => true | _ => false) then ".calls" else ""
+  let uo := if userTextFirst r then "" else ".user-text-after-result"
+  let ao := if asstTextFirst r then "" else ".asst-text-after-call"
+  let sys := match r.system with | .absent => "" | .str _ => ".sys-str" | .blocks _ => ".sys-blocks" | .other => ".sys-other"
+  s!"req.{v}{if ok then "" else ".rejected"}{wr}{tools}{ch}{sys}{res}{use}{uo}{ao}.turns{min r.messages.length 3}"
+
+def handle (j : Json) : IO Unit := do
+  let case := jnat (jget j "case")
+  let kind := jstr (jget j "kind")
+  let impl := jget j "impl"
+  let panicked := jstr (jget impl "panic") != ""
+  match kind with
+  | "req" =>
+    let r := parseReq (jget j "req")
+    let implOk := jbool (jget impl "ok")
+    let shape := jstr (jget impl "shape")
+    let want := translate active r
+    let mut fails : List (String × String) := []
+    if panicked then fails := fails ++ [("panic", jstr (jget impl "panic"))]
+    let mut agree := false
+    let mut modelJ := Json.null
+    if !panicked then
+      if implOk then
+        let o := parseOReq (jget impl "out") r
+        if shape != "" then fails := fails ++ [("openai-request-malformed", shape)]
+        else
+          match want with
+          | .ok w =>
+            agree := (w == o)
+            if !agree then modelJ := toJson (repr w).pretty
+          | .error e => modelJ := errJson e
+          if !(jbool (jget impl "meta_ok")) then fails := fails ++ [("transformed-request-metadata", "ModelName / IsStreaming / TargetPath differ from the request")]
+          if !(valid r) then fails := fails ++ [("invalid-request-accepted", "an invalid request was translated instead of rejected")]
+          if !(scalarsPreserved r o) then fails := fails ++ [("scalar-changed", "model / max_tokens / stream / temperature / top_p / stop differ")]
+          if !(toolsPreserved r o) then fails := fails ++ [("tools-changed", "tool definitions differ")]
+          if !(choicePreserved r o) then
+            fails := fails ++ [(if isNoneObj r.choice then sigNoneObj else "tool-choice-changed", s!"tool_choice became {repr o.choice}")]
+          if wellRoled r && atomsO o != atomsA r then
+            let sig := if !(asstTextFirst r) then sigAsstOrder else if !(userTextFirst r) then sigUserOrder else "order-or-content-changed"
+            fails := fails ++ [(sig, "system/turn/text/call/result sequence sent upstream differs from the client's")]
+      else
+        let e := jget impl "err"
+        match want with
+        | .error we =>
+          -- an error text the harness does not recognise ("other") is compared by error-ness only
+          agree := jstr (jget e "class") == "other" || (match we with
+            | .validation w => jstr (jget e "class") == "validation" && (jstr (jget e "what") == w || jstr (jget e "what") == "")
+            | .content => jstr (jget e "class") == "content"
+            | .toolChoice => jstr (jget e "class") == "toolChoice")
+          modelJ := errJson we
+        | .ok _ => modelJ := "ok"
+        if valid r then fails := fails ++ [("valid-request-rejected", s!"rejected: {jstr (jget e "msg")}")]
+        if !(jbool (jget impl "error_format_ok")) then fails := fails ++ [("error-format", "WriteError(400) is not an Anthropic invalid_request_error body")]
+        if jbool (jget impl "produced_despite_error") then fails := fails ++ [("output-despite-error", "a request was produced next to the error")]
+    match pickFailure fails with
+    | some (sig, note) => emit case agree false (reqBranch r implOk) sig note (if agree then Json.null else modelJ)
+    | none => emit case agree true (reqBranch r implOk) "" (if agree then "" else "model differs") (if agree then Json.null else modelJ)
+  | "malformed" =>
+    let why := jstr (jget j "why")
+    let implOk := jbool (jget impl "ok")
+    let expectErr := jbool (jget j "expect_error")
+    let mut fails : List (String × String) := []
+    if panicked then fails := fails ++ [("panic", jstr (jget impl "panic"))]
+    else if expectErr then
+      if implOk then fails := fails ++ [("malformed-request-accepted", s!"a malformed body ({why}) was translated")]
+      else if !(jbool (jget impl "error_format_ok")) then fails := fails ++ [("error-format", "WriteError(400) is not an Anthropic invalid_request_error body")]
+    match pickFailure fails with
+    | some (sig, note) => emit case (!panicked && (!expectErr || !implOk)) false s!"malformed.{why}" sig note
+    | none => emit case true true (if expectErr then s!"malformed.{why}" else "trivial")
+  | _ => emit case false true "unknown-kind" "" s!"unknown kind {kind}"
+
+def main : IO Unit := do forLines (← IO.getStdin) handle
 
 end Olla.Driver.C12
